@@ -1,21 +1,47 @@
 # C02 — parsing recovers the structure a well-formed document was written with.
-import parseprops, parsecase, docgen, dump
+import parseprops, parsecase, docgen, dump, docwire
 from common import show_str
 
-THEOREMS = []
-RULE = ('PARSE strict on documents derived from the document grammar (text, groups, macro calls with every mix of star / bracket / '
+THEOREMS = ['Pylx.C02.C02_core', 'Pylx.C02.C02_core_run', 'Pylx.C02.C02_core_ok', 'Pylx.C02.items_reach']
+PROOF_MODULES = ['C02']
+RULE = ('DOC: the same derivation through docgen (unparse, tree_of, WF) and through the Lean grammar Pylx.Doc (unparse, treeOf, WF, and shapeOf(parse(unparse d)) = treeOf d evaluated by the driver); PARSE strict on documents derived from the document grammar (text, groups, macro calls with every mix of star / bracket / '
         'mandatory arguments as groups or single tokens, environments with arguments, the four math delimiters, comments, specials, '
         'paragraph breaks, verbatim), random derivations of unbounded depth under the default context, a fixed custom context and '
         'randomly generated contexts with every signature over {m,o,s,t<c>,r<c1c2>,d<c1c2>,v} with and without unknown-macro fallback; '
         'oracle: the structure projection of the returned tree (kinds, names, delimiters, argument presence, nesting, text) equals the '
         'structure the document was generated from; model vs implementation: full tree dump; sig = set of constructs in the document')
-TRUSTED = ['the document generator and its separation discipline WF (harness/docgen.py); its expected tree is cross-checked against the model']
+TRUSTED = ['the document generator and its separation discipline WF (harness/docgen.py); its unparse / tree_of / WF are cross-checked against the Lean grammar Pylx.Doc (unparse, treeOf, WF) on every generated derivation (DOC cases), and the model parse of the Lean unparse against the Lean treeOf']
 ASSUMPTIONS = ['documents respect LaTeX\'s own adjacency rules (WF): control word followed by a letter, absent optional followed by its opener, comment newline']
 TRIVIAL_SIGS = ()
 CASE_TIMEOUT = 10.0
 
 def cases(tier, rng):
+    """every derivation is used twice: as a PARSE case (implementation vs model, structure oracle on the implementation)
+    and as a DOC case (the Lean grammar vs docgen: unparse, treeOf, WF, and model parse of the Lean unparse vs Lean treeOf)"""
+    for c in _parse_cases(tier, rng):
+        yield c
+        d = dict(c); d['k'] = 'doc'
+        yield d
+
+def gen_core(rng, depth=0):
+    """derivations of the proved fragment Doc.Core: text, brace groups, comments with newline + indentation, nested"""
+    items = []
+    for _ in range(rng.randint(0 if depth else 1, 4)):
+        r = rng.random()
+        if r < 0.45:
+            items.append(('T', docgen.gen_text(rng)))
+        elif r < 0.8 and depth < 6:
+            items.append(('G', gen_core(rng, depth + 1)))
+        else:
+            items.append(('C', ''.join(rng.choice('ab {}$\\%') for _ in range(rng.randint(0, 4))), rng.choice(['\n', '\n  ', '\n\t'])))
+    return items
+
+def _parse_cases(tier, rng):
     n = 2500 if tier == 'quick' else 40000
+    for i in range(n // 8):
+        d = gen_core(rng)
+        cn = rng.choice(['default', 'A'])
+        yield {'tol': False, 'ctx': docgen.ctx_of(cn), 's': docgen.unparse(d), 'doc': d, 'cg': cn}
     for i in range(n):
         r = rng.random()
         if r < 0.4:
@@ -29,7 +55,10 @@ def cases(tier, rng):
             d = docgen.gen_doc_cg(rng, cg, budget=rng.randint(1, 8))
             yield {'tol': False, 'ctx': ctx, 's': docgen.unparse(d), 'doc': d, 'cg': cg}
 
-to_line = parsecase.to_line
+def to_line(c):
+    if c.get('k') == 'doc':
+        return docwire.to_line(c['ctx'], _doc(c['doc']))
+    return parsecase.to_line(c)
 
 def _tuplify(x):
     if isinstance(x, list):
@@ -44,7 +73,24 @@ def _doc(d):
         return tuple(_doc(x) for x in d) if (len(d) > 0 and isinstance(d[0], str)) else [_doc(x) for x in d]
     return d
 
+def _cg(c):
+    cg = c['cg'] if isinstance(c['cg'], dict) else docgen.CTXG[c['cg']]
+    if isinstance(cg, dict) and 'envs' in cg:
+        cg = dict(cg); cg['envs'] = dict((k, tuple(v)) for k, v in cg['envs'].items())
+    if c['cg'] == 'default':
+        docgen.sync_default()
+    return cg
+
+def run_doc(c):
+    """the generator's side of the grammar cross-check: what Pylx.Doc.handleDoc must print for this derivation"""
+    cg = _cg(c)
+    doc = _doc(c['doc'])
+    out = 'u=%s t=[%s] wf=T p=agree' % (show_str(docgen.unparse(doc)), docwire.canon_list(docgen.tree_of(doc, cg)))
+    return {'out': out, 'fail': None, 'sig': 'doc'}
+
 def run_impl(c):
+    if c.get('k') == 'doc':
+        return run_doc(c)
     w, kind, p = parsecase.parse(c)
     out = parsecase.show_result(kind, p)
     fail = None
@@ -80,6 +126,8 @@ def run_impl(c):
             fail = {'kind': 'structure-differs', 'detail': 'expected %r ; parsed %r' % (exp, got)}
     return {'out': out, 'fail': fail, 'sig': ','.join(sorted(kinds))}
 
-LEVEL_TEXT = 'under construction'
-LEVEL_NOTE = 'under construction'
+LEVEL_TEXT = ('proved for the core fragment Doc.Core (letter text and brace groups, any nesting, every context without a specials '
+              'string starting with a letter, every sufficient fuel and the fuel parseTop uses); full grammar: correspondence + oracle')
+LEVEL_NOTE = ('C02_full (all constructs, all contexts) is stated in Lean over the grammar Pylx.Doc but proved only on Doc.Core; outside the '
+              'fragment the property rests on the PARSE correspondence, the structure oracle and the DOC cross-check of the grammar')
 TECHNIQUE = 'Lean 4 proof (round trip parse ∘ unparse on the core fragment) + PARSE correspondence + structure oracle on grammar documents'
